@@ -482,7 +482,7 @@ Proof.
     rewrite Ei in Hs. exact Hs.
 Qed.
 
-Hypothesis HK : forall i, no_chain attrs K i = true.
+Context (HK : forall i, no_chain attrs K i = true).
 
 (* [j] is the saturated rendering of [q] *)
 Inductive dsim : qn -> jn -> Prop :=
@@ -535,8 +535,8 @@ Context (c : comp) (Hd : (c_sep c =? SEP_DESCEND)%N = true) (rest : list comp).
 Definition contO : list jn -> result (list ores) :=
   match rest with [] => collect jleaf_o | _ => collect (jgen labels jleaf_o OList rest) end.
 
-Hypothesis Hrest : rest <> [] -> forall q j f, dsim q j -> (2 * jheight j + 3 * length rest + 1 <= f)%nat ->
-  er (fsub f q rest) = jgen labels jleaf_o OList rest j.
+Context (Hrest : rest <> [] -> forall q j f, dsim q j -> (2 * jheight j + 3 * length rest + 1 <= f)%nat ->
+  er (fsub f q rest) = jgen labels jleaf_o OList rest j).
 
 Lemma proceed_cont q j f : dsim q j -> (2 * jheight j + 3 * length rest + 1 <= f)%nat ->
   er (proceed attrs labels f rest [q]) = contO [j].
